@@ -142,9 +142,14 @@ def write_md(cat):
         if not d:
             continue
         for k, v in sorted(d["results"].items()):
+            if k.split("/")[0] not in m["props"]:
+                continue  # the mutant was retargeted since that run
             lines.append("| %s | %s | %s | %s | %s | %.1fs |" % (m["id"], m["desc"], {None: "not run", True: "yes", False: "no"}[d["suite"]], k, v["verdict"], v["wall_s"]))
     open(os.path.join(ROOT, "mutants", "RESULTS.md"), "w").write("\n".join(lines) + "\n")
 
 
 if __name__ == "__main__":
-    main(sys.argv[1:])
+    if sys.argv[1:] == ["--md"]:
+        write_md(json.load(open(os.path.join(ROOT, "mutants", "catalog.json"))))
+    else:
+        main(sys.argv[1:])
